@@ -72,7 +72,9 @@ Definition pg_ok (s : shared') (pg : nat) (act : bool) (sel : selector) : Prop :
 Definition state_inv (s : shared') (st : estate) : Prop :=
   match st with Selecting pg act sel => sel_inv s sel /\ pg_ok s pg act sel | _ => True end.
 
-Record SInv (s : shared') : Prop := { si_com : wf_ce (com s); si_dict : dict_ok (dict s); si_sym : sym_sel s = ss0 }.
+(* the page size is at least 1 (the C API accepts 1..10; Editor::set_editor_options is only given such values: op_ok) *)
+Record SInv (s : shared') : Prop := { si_com : wf_ce (com s); si_dict : dict_ok (dict s); si_sym : sym_sel s = ss0;
+                                      si_per : 1 <= o_per_page (opts s) }.
 Record Inv (e : editor') : Prop := { inv_sh : SInv (sh e); inv_st : state_inv (sh e) (st e) }.
 
 (* what the candidate list and its paging read of the shared state *)
@@ -126,14 +128,14 @@ Proof. unfold with_com. intros H. bind_ok H c Hc. inv_ok H. eauto. Qed.
 
 (* ---- helpers preserve SInv ---- *)
 Lemma SInv_set_com s c : SInv s -> wf_ce c -> SInv (set_com s c).
-Proof. intros [Hc Hd Sy] W. constructor; assumption. Qed.
+Proof. intros [Hc Hd Sy Pp] W. constructor; assumption. Qed.
 
 Lemma commit_or_insert_inv s ch s' t : SInv s -> commit_or_insert s ch = Ok (s', t) -> SInv s'.
 Proof.
   intros I H. unfold commit_or_insert in H. destruct (ce_is_empty (com s)).
   - inv_ok H. destruct I; constructor; assumption.
   - bind_ok H s1 H1. inv_ok H. apply with_com_ok in H1 as (c & Hc & ->).
-    apply SInv_set_com; [assumption|]. destruct I as [W _ _]. now destruct (ce_insert_spec _ _ _ W Hc).
+    apply SInv_set_com; [assumption|]. destruct I as [W _ _ _]. now destruct (ce_insert_spec _ _ _ W Hc).
 Qed.
 
 Lemma insert_chars_wf l : forall c c', wf_ce c -> insert_chars c l = Ok c' -> wf_ce c'.
@@ -151,7 +153,7 @@ Lemma learn_phrase_inv s k t s' b : SInv s -> learn_phrase dops s k t = Ok (s', 
   notice s' = notice s /\ last s' = last s /\ lifetime s' = lifetime s /\ engine s' = engine s /\
   abbr s' = abbr s /\ sym_sel s' = sym_sel s.
 Proof.
-  intros [W Hd Sy] H. unfold learn_phrase in H.
+  intros [W Hd Sy Pp] H. unfold learn_phrase in H.
   destruct (negb (Nat.eqb (length k) (length t))) eqn:El.
   - inv_ok H. frame.
   - apply negb_false_iff, Nat.eqb_eq in El.
@@ -160,7 +162,7 @@ Proof.
       assert (Hd' : dict_ok d').
       { change d' with (fst (d', ok)). rewrite <- Ea. apply ok_add; [assumption | lia]. }
       inv_ok H. cbn. split; [|repeat split; reflexivity]. constructor; cbn; assumption.
-    + bind_ok H uf Hu. inv_ok H. cbn. split; [|repeat split; reflexivity]. constructor; cbn; [assumption| |assumption].
+    + bind_ok H uf Hu. inv_ok H. cbn. split; [|repeat split; reflexivity]. constructor; cbn; [assumption| |assumption|assumption].
       apply ok_update; [assumption | lia |].
       intros ->. rewrite (ok_lookup _ _ Hd) in Elk. discriminate.
 Qed.
@@ -211,7 +213,7 @@ Proof.
     - unfold auto_learn in H1. destruct (auto_learn_go_inv _ _ _ _ _ _ I H1) as (I1 & E1 & E2 & E3 & _). auto. }
   destruct K as (I1 & Ec & Eo & Es). cbn.
   split; [|split; [reflexivity | split; [reflexivity | split; [reflexivity | split; [reflexivity | split; assumption]]]]].
-  destruct I1 as [W1 D1 Sy1]. constructor; cbn; [apply ce_clear_all_wf | assumption | assumption].
+  destruct I1 as [W1 D1 Sy1 Pp1]. constructor; cbn; [apply ce_clear_all_wf | assumption | assumption | assumption].
 Qed.
 
 Lemma try_auto_commit_inv s s' : SInv s -> try_auto_commit conv s = Ok s' -> SInv s'.
@@ -219,7 +221,7 @@ Proof.
   intros I H. unfold try_auto_commit in H.
   destruct (Nat.leb (ce_len (com s)) (o_threshold (opts s))); [now inv_ok H|].
   bind_ok H r Hr. destruct r as [buf remove]. bind_ok H c Hc. inv_ok H.
-  destruct I as [W Dk Sy]. constructor; cbn; [|assumption|assumption].
+  destruct I as [W Dk Sy Pp]. constructor; cbn; [|assumption|assumption|assumption].
   now destruct (ce_remove_front_spec _ _ _ W Hc).
 Qed.
 
@@ -236,7 +238,7 @@ Proof. intros H. unfold slice. rewrite firstn_length, skipn_length. lia. Qed.
 Lemma learn_in_range_inv s a b s' ok : SInv s -> learn_in_range dops conv s a b = Ok (s', ok) ->
   SInv s' /\ com s' = com s /\ opts s' = opts s /\ syl s' = syl s /\ nth s' = nth s.
 Proof.
-  intros [W Dk Sy] H. unfold learn_in_range in H.
+  intros [W Dk Sy Pp] H. unfold learn_in_range in H.
   destruct (Nat.ltb (ce_len (com s)) b) eqn:Eb; [inv_ok H; cbn; frame|]. apply Nat.ltb_ge in Eb.
   destruct (Nat.ltb b a) eqn:Eab; [discriminate|]. apply Nat.ltb_ge in Eab.
   destruct (existsb is_char _) eqn:Ech; [inv_ok H; cbn; frame|].
@@ -503,8 +505,8 @@ Lemma new_phrase_selecting_inv s s' st' : SInv s ->
   new_phrase_selecting dops s = Ok (s', st') ->
   SInv s' /\ state_inv s' st'.
 Proof.
-  intros [W Dk Sy] (code & Hsym) H. unfold new_phrase_selecting in H. bind_ok H p Hp. inv_ok H. split.
-  - constructor; cbn; [|assumption|assumption]. apply ce_clamp_cursor_wf, ce_push_cursor_wf, W.
+  intros [W Dk Sy Pp] (code & Hsym) H. unfold new_phrase_selecting in H. bind_ok H p Hp. inv_ok H. split.
+  - constructor; cbn; [|assumption|assumption|assumption]. apply ce_clamp_cursor_wf, ce_push_cursor_wf, W.
   - destruct (symbol_for_select_at_clamped_cursor _ _ Hsym) as (Hlt & Hat).
     assert (Hin : inner (ce_clamp_cursor (ce_push_cursor (com s))) = inner (com s)).
     { unfold ce_clamp_cursor, ce_push_cursor. cbn [cursor inner cursor_stack ce_len]. destruct (Nat.eqb _ _); reflexivity. }
@@ -519,8 +521,8 @@ Lemma new_phrase_selecting_simple_inv s s' st' : SInv s ->
   new_phrase_selecting_simple s = Ok (s', st') ->
   SInv s' /\ state_inv s' st'.
 Proof.
-  intros [W Dk Sy] Hsym H. unfold new_phrase_selecting_simple in H. bind_ok H p Hp. inv_ok H. split.
-  - constructor; cbn; [|assumption|assumption]. apply ce_push_cursor_wf, W.
+  intros [W Dk Sy Pp] Hsym H. unfold new_phrase_selecting_simple in H. bind_ok H p Hp. inv_ok H. split.
+  - constructor; cbn; [|assumption|assumption|assumption]. apply ce_push_cursor_wf, W.
   - apply ps_init_single_word_inv in Hp.
     + destruct Hp as (Hok & Hc). cbn [state_inv sel_inv]. split; [|apply pg_ok_zero_phrase].
       split; [exact Hok|]. rewrite Hc. reflexivity.
@@ -536,7 +538,7 @@ Lemma new_special_selecting_inv s sym s' st' : SInv s ->
   new_special_selecting s sym = Ok (s', st') ->
   SInv s' /\ state_inv s' st'.
 Proof.
-  intros [W Dk Sy] Hsym Hch H. unfold new_special_selecting in H. bind_ok H m Hm.
+  intros [W Dk Sy Pp] Hsym Hch H. unfold new_special_selecting in H. bind_ok H m Hm.
   assert (K : wf_ce (ce_clamp_cursor (ce_push_cursor (com s)))) by (apply ce_clamp_cursor_wf, ce_push_cursor_wf, W).
   destruct (symbol_for_select_at_clamped_cursor _ _ Hsym) as (Hlt & _).
   assert (Hlen : cursor (ce_clamp_cursor (ce_push_cursor (com s))) < ce_len (ce_clamp_cursor (ce_push_cursor (com s)))).
@@ -556,7 +558,7 @@ Ltac triv_t :=
         | match goal with
           | I : SInv _ |- _ =>
             let Sy := fresh "Sy" in
-            destruct I as [_ _ Sy];
+            destruct I as [_ _ Sy _];
             cbn [sym_sel set_com set_syl set_dict set_opts set_last set_nth set_commit set_notice set_lifetime set_engine] in *;
             split; [rewrite ?Sy; apply ss0_from | split; [apply page_ok_zero | intros Hf; discriminate Hf]]
           end].
@@ -579,9 +581,10 @@ Ltac sinv :=
   | I : SInv _ |- SInv _ =>
     solve [
       let W := fresh "W" in let Dk := fresh "Dk" in
-      destruct I as [W Dk Sy]; constructor;
+      destruct I as [W Dk Sy Pp]; constructor;
       unfold switch_language, switch_form, cancel_selecting;
-      cbn [com dict set_com set_syl set_dict set_opts set_last set_nth set_commit set_notice set_lifetime set_engine];
+      cbn [com dict opts sym_sel set_com set_syl set_dict set_opts set_last set_nth set_commit set_notice set_lifetime set_engine
+           set_english set_fullwidth o_per_page];
       auto using ce_left_wf, ce_right_wf, ce_to_end_wf, ce_to_begin_wf, ce_clear_keep_stack_wf, ce_clear_all_wf, ce_pop_cursor_wf,
                  ce_move_cursor_wf, ce_clamp_cursor_wf, ce_push_cursor_wf ]
   end.
@@ -605,7 +608,7 @@ Proof.
     bind_ok H0 x Hx. inv_ok H0. triv_t. }
   assert (INS : forall s0 x s1, SInv s0 -> with_com s0 (ce_insert (com s0) x) = Ok s1 -> SInv s1).
   { intros s0 x s1 I0 H0. eapply with_com_inv; [exact I0| |exact H0].
-    intros c Hc. destruct I0 as [W0 _ _]. now destruct (ce_insert_spec _ _ _ W0 Hc). }
+    intros c Hc. destruct I0 as [W0 _ _ _]. now destruct (ce_insert_spec _ _ _ W0 Hc). }
   destruct (negb (o_english (opts s))).
   - destruct (N.eqb (kcode ev) kc_Grave && mods_none ev); [inv_ok H; split; [assumption | triv_t]|].
     destruct (N.eqb (kcode ev) kc_Space).
@@ -614,7 +617,7 @@ Proof.
     destruct (o_easy_symbol (opts s)).
     { destruct (assoc (kunicode ev) (abbr s)).
       - bind_ok H c Hc. inv_ok H. split; [|triv_t].
-        apply SInv_set_com; [assumption|]. destruct I as [W _ _]. eapply insert_chars_wf; eassumption.
+        apply SInv_set_com; [assumption|]. destruct I as [W _ _ _]. eapply insert_chars_wf; eassumption.
       - destruct (special_symbol_input (kunicode ev)).
         + bind_ok H s1 H1. inv_ok H. split; [eapply INS; eassumption | triv_t].
         + destruct (mods_none ev).
@@ -647,7 +650,7 @@ Proof.
   assert (WC : forall (f : comp_editor -> outcome comp_editor) s1,
              (forall c c', wf_ce c -> f c = Ok c' -> wf_ce c') ->
              with_com s (f (com s)) = Ok s1 -> SInv s1).
-  { intros f s1 Hf H0. eapply with_com_inv; [exact I| |exact H0]. intros c Hc. destruct I as [W _ _]. eapply Hf; eassumption. }
+  { intros f s1 Hf H0. eapply with_com_inv; [exact I| |exact H0]. intros c Hc. destruct I as [W _ _ _]. eapply Hf; eassumption. }
   assert (LR : forall a b r, learn_in_range dops conv s a b = Ok r -> SInv (fst r)).
   { intros a b [s1 ok] Hr. cbn. now destruct (learn_in_range_inv _ _ _ _ _ I Hr). }
   split_if H.
@@ -704,7 +707,7 @@ Proof.
   assert (I1 : SInv (set_syl s sy)) by sinv.
   assert (INS : forall s0 x s1, SInv s0 -> with_com s0 (ce_insert (com s0) x) = Ok s1 -> SInv s1).
   { intros s0 x s1 I0 H0. eapply with_com_inv; [exact I0| |exact H0].
-    intros c Hc. destruct I0 as [W0 _ _]. now destruct (ce_insert_spec _ _ _ W0 Hc). }
+    intros c Hc. destruct I0 as [W0 _ _ _]. now destruct (ce_insert_spec _ _ _ W0 Hc). }
   destruct kb; try done_spin H.
   - (* Commit *)
     split_if H; [|done_spin H].
@@ -714,7 +717,7 @@ Proof.
       eapply new_phrase_selecting_simple_inv; [| |exact Hr]; [sinv|].
       (* the syllable just inserted sits right before the cursor *)
       cbn [com set_syl]. apply with_com_ok in H2 as (c2 & Hc2 & ->). cbn [com set_com].
-      destruct I1 as [W1 _ _]. destruct (ce_insert_spec _ _ _ W1 Hc2) as (_ & Hsy & Hcur & _).
+      destruct I1 as [W1 _ _ _]. destruct (ce_insert_spec _ _ _ W1 Hc2) as (_ & Hsy & Hcur & _).
       intros _. rewrite Hcur. replace (S (cursor (com (set_syl s sy))) - 1) with (cursor (com (set_syl s sy))) by lia.
       eexists. unfold syl_at. rewrite Hsy. apply nth_error_insert_at_eq. destruct W1 as [_ Wc]. exact Wc.
     + done_spin H.
@@ -755,21 +758,21 @@ Proof.
   intros I Hsel (Hpg & Hact) H. unfold selecting_select_offset in H. destruct sel as [p|y|sym0].
   - bind_ok H cands Hc. destruct (nth_error cands _) as [text|].
     + bind_ok H c1 H1. inv_ok H. split; [|split; exact Logic.I].
-      destruct I as [W Dk Sy]. destruct Hsel as ([Hlt Hle _] & Hcom).
+      destruct I as [W Dk Sy Pp]. destruct Hsel as ([Hlt Hle _] & Hcom).
       destruct (ce_select_spec _ (mkIv (ps_begin p) (ps_end p) true text) _ W Hlt H1) as (W1 & _).
-      constructor; cbn; [|assumption|assumption].
+      constructor; cbn; [|assumption|assumption|assumption].
       destruct (o_auto_shift (opts s)); [apply ce_right_wf|]; apply ce_pop_cursor_wf; assumption.
     + inv_ok H. split; [assumption | split; [exact Logic.I | split; [assumption | split; assumption]]].
   - destruct (Nat.leb _ _); [inv_ok H; split; [assumption | split; [exact Logic.I | split; [assumption | split; assumption]]]|].
     bind_ok H r Hr. destruct r as [y' res]. pose proof (ss_select_from _ _ _ _ Hsel Hr) as Hy'. destruct res as [sym|].
     + bind_ok H c1 H1. inv_ok H. split; [|split; exact Logic.I].
-      destruct I as [W Dk Sy]. constructor; cbn; [|assumption|assumption].
+      destruct I as [W Dk Sy Pp]. constructor; cbn; [|assumption|assumption|assumption].
       apply ce_pop_cursor_wf. eapply ce_insert_or_replace_wf; eassumption.
     + inv_ok H. split; [assumption | split; [exact Logic.I | split; [exact Hy' | split; [apply page_ok_zero | exact Hact]]]].
   - bind_ok H m Hm. destruct (Nat.leb _ _); [inv_ok H; split; [assumption | split; [exact Logic.I | split; [assumption | split; assumption]]]|].
     bind_ok H res Hr. destruct res as [sym|].
     + bind_ok H c1 H1. inv_ok H. split; [|split; exact Logic.I].
-      destruct I as [W Dk Sy]. constructor; cbn; [|assumption|assumption].
+      destruct I as [W Dk Sy Pp]. constructor; cbn; [|assumption|assumption|assumption].
       apply ce_pop_cursor_wf. eapply ce_insert_or_replace_wf; eassumption.
     + inv_ok H. split; [assumption | split; [exact Logic.I | split; [exact Hsel | split; [apply page_ok_zero | exact Hact]]]].
 Qed.
@@ -782,7 +785,7 @@ Proof. unfold selecting_select. apply selecting_select_offset_inv. Qed.
 (* the selector J / K open at the (moved) cursor: a phrase list or a special-symbol list on the symbol there *)
 Lemma reselect_at_cursor_inv s sel act : SInv s -> reselect_at_cursor dops s = Ok sel -> sel_inv s sel /\ act_ok s act sel.
 Proof.
-  intros [W Dk Sy] H. unfold reselect_at_cursor in H. destruct (ce_symbol (com s)) as [sym|] eqn:Esym; [|discriminate].
+  intros [W Dk Sy Pp] H. unfold reselect_at_cursor in H. destruct (ce_symbol (com s)) as [sym|] eqn:Esym; [|discriminate].
   assert (Hcur : cursor (com s) < ce_len (com s)).
   { unfold ce_symbol, comp_symbol in Esym. apply nth_error_Some. unfold ce_len, clen. congruence. }
   destruct (is_syllable sym) eqn:Eis.
@@ -815,7 +818,7 @@ Proof.
       split; [eapply total_page_lt; eassumption | exact Hact]. }
     destruct sel as [p|y|sym0].
     - bind_ok H p' Hp'. inv_ok H. split; [assumption | split; [exact Logic.I|]].
-      destruct I as [W Dk Sy]. unfold ps_next in Hp'. destruct Hsel as (Hpok & Hcom).
+      destruct I as [W Dk Sy Pp]. unfold ps_next in Hp'. destruct Hsel as (Hpok & Hcom).
       destruct (ps_cycle_inv _ _ (ps_begin p, ps_end p) p p' Dk Hpok Hp') as (Hok & Hc).
       split; [|apply pg_ok_zero_phrase]. split; [exact Hok | congruence].
     - inv_ok H. fin_stay.
@@ -843,7 +846,7 @@ Proof.
   split_if H; [eapply selecting_select_inv; [exact I | exact Hsel | exact Hpgok | exact H]|].
   split_if H.
   { inv_ok H. split; [|split; exact Logic.I].
-    destruct CS as [W Dk Sy]. constructor; cbn; [apply ce_pop_cursor_wf; exact W | exact Dk | exact Sy]. }
+    destruct CS as [W Dk Sy Pp]. constructor; cbn; [apply ce_pop_cursor_wf; exact W | exact Dk | exact Sy | exact Pp]. }
   split_if H; inv_ok H; fin_stay.
 Qed.
 
@@ -963,8 +966,8 @@ Qed.
 
 Theorem ed_clear_inv e : Inv e -> Inv (ed_clear sops e).
 Proof.
-  intros [[W Dk Sy] Ist]. constructor; cbn [sh st ed_clear]; [|exact Logic.I].
-  constructor; cbn; [apply ce_clear_all_wf | assumption | assumption].
+  intros [[W Dk Sy Pp] Ist]. constructor; cbn [sh st ed_clear]; [|exact Logic.I].
+  constructor; cbn; [apply ce_clear_all_wf | assumption | assumption | assumption].
 Qed.
 
 (* set_editor_options / learn / unlearn leave the buffer alone; the page is then brought back
@@ -987,12 +990,15 @@ Proof.
       right. assert (pg * o_per_page (opts (sh e)) <= (tp - 1) * o_per_page (opts (sh e))) by (apply Nat.mul_le_mono_r; lia). lia.
 Qed.
 
-Lemma ed_set_options_sinv e o : SInv (sh e) -> SInv (sh (ed_set_options sops e o)).
-Proof. intros Ish. unfold ed_set_options. cbn [sh]. destruct (negb _); sinv. Qed.
-
-Theorem ed_set_options_c_inv e o e' : Inv e -> ed_set_options_c dops sops e o = Ok e' -> Inv e'.
+Lemma ed_set_options_sinv e o : 1 <= o_per_page o -> SInv (sh e) -> SInv (sh (ed_set_options sops e o)).
 Proof.
-  intros [Ish Ist] H. unfold ed_set_options_c in H. eapply clamp_page_inv; [apply ed_set_options_sinv, Ish | | exact H].
+  intros Ho [W Dk Sy Pp]. unfold ed_set_options. cbn [sh].
+  destruct (negb _); constructor; cbn [com dict opts sym_sel set_opts set_syl]; assumption.
+Qed.
+
+Theorem ed_set_options_c_inv e o e' : 1 <= o_per_page o -> Inv e -> ed_set_options_c dops sops e o = Ok e' -> Inv e'.
+Proof.
+  intros Ho [Ish Ist] H. unfold ed_set_options_c in H. eapply clamp_page_inv; [apply ed_set_options_sinv; [exact Ho | exact Ish] | | exact H].
   intros pg act sel Hst. unfold ed_set_options in *. cbn [sh st] in *. rewrite Hst in Ist. destruct Ist as (Hs & _ & Ha).
   split; [eapply sel_inv_view; [|exact Hs] | eapply act_ok_view; [| |exact Ha]]; destruct (negb _); reflexivity.
 Qed.
@@ -1015,8 +1021,8 @@ Qed.
 
 Theorem ed_unlearn_c_inv e k t e' : Inv e -> ed_unlearn_c dops sops e k t = Ok e' -> Inv e'.
 Proof.
-  intros [[W Dk Sy] Ist] H. unfold ed_unlearn_c in H. eapply clamp_page_inv; [| | exact H]; unfold ed_unlearn; cbn [sh st].
-  - constructor; cbn; [assumption | now apply ok_remove | assumption].
+  intros [[W Dk Sy Pp] Ist] H. unfold ed_unlearn_c in H. eapply clamp_page_inv; [| | exact H]; unfold ed_unlearn; cbn [sh st].
+  - constructor; cbn; [assumption | now apply ok_remove | assumption | assumption].
   - intros pg act sel Hst. rewrite Hst in Ist. destruct Ist as (Hs & _ & Ha). split; [exact Hs | exact Ha].
 Qed.
 
@@ -1052,22 +1058,25 @@ Qed.
 Lemma fst_ok_ok {A B} (r : outcome (A * B)) a : fst_ok r = Ok a -> exists b, r = Ok (a, b).
 Proof. destruct r as [[x y]| | |]; cbn; intros H; inversion H; subst; eauto. Qed.
 
+(* the operations the C API can issue: a page size of at least 1 *)
+Definition op_ok (o : op) : Prop := match o with OpSetOptions x => 1 <= o_per_page x | _ => True end.
+
 (* every operation, hence every history, preserves the invariant *)
-Theorem step_inv e o e' : Inv e -> step dops sops conv e o = Ok e' -> Inv e'.
+Theorem step_inv e o e' : op_ok o -> Inv e -> step dops sops conv e o = Ok e' -> Inv e'.
 Proof.
-  intros I H. destruct o; cbn [step] in H.
+  intros Hop I H. destruct o; cbn [step] in H.
   - apply fst_ok_ok in H as (b & H). eapply process_keyevent_inv; eassumption.
   - apply fst_ok_ok in H as (b & H). eapply ed_select_inv; eassumption.
   - inv_ok H. now apply ed_cancel_selecting_inv.
   - apply fst_ok_ok in H as (b & H). eapply ed_start_selecting_inv; eassumption.
   - apply fst_ok_ok in H as (b & H). eapply ed_commit_inv; eassumption.
   - inv_ok H. now apply ed_clear_inv.
-  - inv_ok H. destruct I as [[W Dk Sy] Ist]. constructor; cbn [sh st ed_ack]; [constructor; cbn; assumption|].
+  - inv_ok H. destruct I as [[W Dk Sy Pp] Ist]. constructor; cbn [sh st ed_ack]; [constructor; cbn; assumption|].
     eapply state_inv_view; [|exact Ist]. repeat split.
-  - eapply ed_set_options_c_inv; eassumption.
-  - inv_ok H. destruct I as [[W Dk Sy] Ist]. constructor; cbn [sh st ed_set_engine]; [constructor; cbn; assumption|].
+  - eapply ed_set_options_c_inv; [exact Hop | exact I | exact H].
+  - inv_ok H. destruct I as [[W Dk Sy Pp] Ist]. constructor; cbn [sh st ed_set_engine]; [constructor; cbn; assumption|].
     eapply state_inv_view; [|exact Ist]. repeat split.
-  - inv_ok H. destruct I as [[W Dk Sy] Ist]. constructor; cbn [sh st ed_clear_syllable_editor]; [constructor; cbn; assumption|].
+  - inv_ok H. destruct I as [[W Dk Sy Pp] Ist]. constructor; cbn [sh st ed_clear_syllable_editor]; [constructor; cbn; assumption|].
     destruct (st e) as [| |pg act sel|mv]; try exact Logic.I. destruct Ist as (Hs & Hp & Ha). split; [|split; [|exact Ha]].
     + eapply sel_inv_view; [|exact Hs]. reflexivity.
     + intros Hper c Hc. apply (Hp Hper c). rewrite <- Hc. destruct sel as [p|y|sy]; cbn [candidates set_syl dict syl]; try reflexivity.
@@ -1083,15 +1092,16 @@ Proof.
   - eapply ed_unlearn_c_inv; eassumption.
 Qed.
 
-Theorem run_inv ops : forall e e', Inv e -> run dops sops conv e ops = Ok e' -> Inv e'.
+Theorem run_inv ops : forall e e', Forall op_ok ops -> Inv e -> run dops sops conv e ops = Ok e' -> Inv e'.
 Proof.
-  induction ops as [|o rest IH]; intros e e' I H; cbn [run] in H.
+  induction ops as [|o rest IH]; intros e e' Hops I H; cbn [run] in H.
   - now inv_ok H.
-  - destruct (step dops sops conv e o) as [e1| | |] eqn:Es; try discriminate.
-    eapply IH; [eapply step_inv; eassumption | exact H].
+  - inversion Hops as [|x l Ho Hrest]; subst.
+    destruct (step dops sops conv e o) as [e1| | |] eqn:Es; try discriminate.
+    eapply IH; [exact Hrest | eapply step_inv; eassumption | exact H].
 Qed.
 
 Lemma init_inv d s0 ab t0 : dict_ok d -> Inv (init_editor d s0 ab ss0 t0).
-Proof. intros Hd. constructor; cbn; [constructor; cbn; [apply wf_ce_empty | assumption | reflexivity] | exact Logic.I]. Qed.
+Proof. intros Hd. constructor; cbn; [constructor; cbn; [apply wf_ce_empty | assumption | reflexivity | vm_compute; apply le_S, le_S, le_S, le_S, le_S, le_S, le_S, le_S, le_S, le_n] | exact Logic.I]. Qed.
 
 End Inv.
